@@ -147,6 +147,83 @@ func Shrink(t *testing.T, c *Case, finger string, budget time.Duration, maxRuns 
 				}
 			}
 		}
+		// 4b. component cases
+		if best.Comp != nil {
+			ddmin := func(n func(c *Case) int, cut func(c *Case, start, chunk int)) {
+				for chunk := n(best) / 2; chunk >= 1 && !over(); chunk /= 2 {
+					for start := 0; start+chunk <= n(best) && !over(); {
+						cand := best.Clone()
+						cut(cand, start, chunk)
+						if !try(cand) {
+							start += chunk
+						}
+					}
+				}
+			}
+			ddmin(func(c *Case) int { return len(c.Comp.Lens) }, func(c *Case, st, ch int) {
+				c.Comp.Lens = append(append([]int{}, c.Comp.Lens[:st]...), c.Comp.Lens[st+ch:]...)
+				if len(c.Comp.Flush) >= st+ch {
+					c.Comp.Flush = append(append([]bool{}, c.Comp.Flush[:st]...), c.Comp.Flush[st+ch:]...)
+				}
+			})
+			ddmin(func(c *Case) int { return len(c.Comp.Pairs) }, func(c *Case, st, ch int) {
+				c.Comp.Pairs = append(append([]Rec{}, c.Comp.Pairs[:st]...), c.Comp.Pairs[st+ch:]...)
+			})
+			ddmin(func(c *Case) int { return len(c.Comp.Moves) }, func(c *Case, st, ch int) {
+				c.Comp.Moves = append(append([]Move{}, c.Comp.Moves[:st]...), c.Comp.Moves[st+ch:]...)
+			})
+			for pi := len(best.Comp.Prog) - 1; pi >= 1 && !over(); pi-- {
+				cand := best.Clone()
+				cand.Comp.Prog = append(cand.Comp.Prog[:pi], cand.Comp.Prog[pi+1:]...)
+				try(cand)
+			}
+			for pi := 0; pi < len(best.Comp.Prog) && !over(); pi++ {
+				pi := pi
+				ddmin(func(c *Case) int {
+					if pi >= len(c.Comp.Prog) {
+						return 0
+					}
+					return len(c.Comp.Prog[pi])
+				}, func(c *Case, st, ch int) {
+					p := c.Comp.Prog[pi]
+					c.Comp.Prog[pi] = append(append([]COp{}, p[:st]...), p[st+ch:]...)
+				})
+				for oi := 0; pi < len(best.Comp.Prog) && oi < len(best.Comp.Prog[pi]) && !over(); oi++ {
+					if len(best.Comp.Prog[pi][oi].Moves) > 1 {
+						oi := oi
+						ddmin(func(c *Case) int { return len(c.Comp.Prog[pi][oi].Moves) }, func(c *Case, st, ch int) {
+							m := c.Comp.Prog[pi][oi].Moves
+							c.Comp.Prog[pi][oi].Moves = append(append([]Move{}, m[:st]...), m[st+ch:]...)
+						})
+					}
+				}
+			}
+			for i := range best.Comp.Pairs {
+				if over() {
+					break
+				}
+				if best.Comp.Pairs[i].Val.Len > minValLen {
+					cand := best.Clone()
+					cand.Comp.Pairs[i].Val.Len = minValLen
+					try(cand)
+				}
+			}
+			for i := range best.Comp.Lens {
+				if over() {
+					break
+				}
+				if best.Comp.Lens[i] > 8 {
+					cand := best.Clone()
+					cand.Comp.Lens[i] = best.Comp.Lens[i] / 2
+					try(cand)
+				}
+			}
+			if best.Comp.HasS || best.Comp.HasL {
+				cand := best.Clone()
+				cand.Comp.HasS, cand.Comp.HasL, cand.Comp.Start, cand.Comp.Limit = false, false, nil, nil
+				try(cand)
+			}
+		}
 		// 5. knobs toward defaults
 		shrinkKnobs := func(get func(c *Case) *Knobs) {
 			kv := reflect.ValueOf(get(best)).Elem()
